@@ -418,7 +418,10 @@ func (g *Gen) newPod(cl *Cluster) *Pod {
 	}
 	p := &Pod{NS: g.nsOf(cl), Name: fmt.Sprintf("p%d", g.podSeq), Labels: g.labels(podLabelKV, 2), Node: node}
 	g.podSeq++
-	if !(g.F.Ipless && g.C.Prob(1, 5)) {
+	// pods without an address yet: a few everywhere when the feature is on, and half of this node's new pods
+	// when CNI operations are on (the address then arrives through a CNI ADD or a status update)
+	ipless := (g.F.Ipless && g.C.Prob(1, 5)) || (g.F.CNI && node == thisNode && g.C.Prob(1, 2))
+	if !ipless {
 		p.IP = g.freshIP(node, cl)
 	}
 	return p
